@@ -347,8 +347,20 @@ def twin_part(spec, facts):
         ra = call(lambda: getattr(user, 'pref%d' % pix))
         rb = call(lambda: wB.get_processor(P))
     elif sh == 'pref_set':
-        ra = call(lambda: setattr(user, 'pref%d' % pix, P('newp')))
-        rb = call(lambda: wB.add_processor(P('newp')))
+        # the value: a new instance; an instance carrying a priority of its own; or the very instance the world
+        # already holds (whose priority was given when it was added) - assigning never touches the priority
+        pa, pb = P('newp'), P('newp')
+        vm = spec.get('valmode')
+        if vm == 2:
+            pa.priority = pb.priority = 7 - 2 * pix
+            facts['assign_processor_with_own_priority'] += 1
+        elif vm == 1:
+            ha, hb = A.world.get_processor(P), wB.get_processor(P)
+            if type(ha) is P and type(hb) is P:
+                pa, pb = ha, hb
+                facts['assign_the_processor_already_held'] += 1
+        ra = call(lambda: setattr(user, 'pref%d' % pix, pa))
+        rb = call(lambda: wB.add_processor(pb))
     else:
         ra = call(lambda: delattr(user, 'pref%d' % pix))
         rb = call(lambda: wB.remove_processor(P) and None)
